@@ -49,9 +49,7 @@ def random_top(b0, s, exact):
     return low
 
 
-def random_value(b0, rest, bits, exact):
-    """value of Integer.random: n = ceil(bits/8) bytes; the first byte is masked to s = bits - 8*(n-1) bits, the other
-    n-1 tape bytes are used as they are; big-endian"""
-    n = (bits + 7) // 8
-    s = bits - 8 * (n - 1)
-    return random_top(b0, s, exact) * pow2(8 * (n - 1)) + be(rest)
+def random_value(b0, rest, s, exact):
+    """value of Integer.random(bits): n = ceil(bits/8) bytes are read; the first byte b0 is masked to its s = bits - 8*(n-1)
+    low bits (top bit forced for exact_bits), the other n-1 tape bytes `rest` are used as they are; big-endian"""
+    return random_top(b0, s, exact) * pow2(8 * len(rest)) + be(rest)
